@@ -234,7 +234,8 @@ fn gen_msg(rng: &mut Rng, ndest: u8, npay: u8) -> MsgSpec {
     MsgSpec {
         id: rng.below(IDS.len() as u64) as u8,
         src: rng.below(SRCS.len() as u64) as u8,
-        dest: rng.below(ndest as u64) as u8,
+        // one message in thirty names the ACCOUNT twin of an application's contract address as destination
+        dest: if rng.chance(1, 30) { 100 + rng.below(2) as u8 } else { rng.below(ndest as u64) as u8 },
         payload: rng.below(npay as u64) as u8,
     }
 }
